@@ -27,7 +27,7 @@ func runC03(c *core.Ctx) {
 		"then a fresh process loads and rebuilds, judged by the reference model and a from-scratch build; plus every failure pattern of up to 2 bodies. " +
 		"non-trivial = a crash or failure that left at least one target unfinished; distinct = distinct (scenario, point, label, n, limit)")
 	c.Assume("kill -9 of the build process; the file system itself does not lose completed writes (no power-loss model)")
-	n := c.N(10, 150)
+	n := c.N(14, 150)
 	var cases []string
 	for i := 0; i < n; i++ {
 		if id := fmt.Sprintf("scen/%d", i); c.Want(id) {
